@@ -147,9 +147,9 @@ class Analysis:
                     P = c["src"]
                     Lp = inflight[P]
                     if Lp is not None:
-                        if m.due(c, Lp) <= L:
+                        if m.due_order(c, Lp) <= L:
                             self.add("C01", "feeder_in_flight", consumer=sid, label=list(L), producer=P,
-                                     producer_label=list(Lp), due=list(m.due(c, Lp)),
+                                     producer_label=list(Lp), due=list(m.due_order(c, Lp)),
                                      conn=self.cdesc(c), i=ev["i"])
                     if P in since_prev_begin_inflight[sid] or Lp is not None:
                         had_inflight_feeder = True
@@ -162,9 +162,9 @@ class Analysis:
                 for c in consumers[sid]:
                     Cs = c["dst"]
                     bm = begun_max[Cs]
-                    if bm is not None and m.due(c, L) <= bm:
+                    if bm is not None and m.due_order(c, L) <= bm:
                         self.add("C01", "producer_steps_into_past", producer=sid, label=list(L),
-                                 consumer=Cs, consumer_begun=list(bm), due=list(m.due(c, L)),
+                                 consumer=Cs, consumer_begun=list(bm), due=list(m.due_order(c, L)),
                                  conn=self.cdesc(c), i=ev["i"])
                     self.stats["c01_pairs_checked"] += 1
                 # ---- C10 lazy: no consumer step earlier than L outstanding -----
